@@ -21,7 +21,8 @@ type hop struct {
 	tid       int
 }
 
-// atomicMap is the sequential specification: a plain map with compute-if-absent.
+// atomicMap is the sequential specification: a plain map with compute-if-absent. Values are
+// names (see sched.go); the specification keeps whatever it is given, of whatever kind.
 func specApply(m map[int]int, o op) (string, func()) {
 	old, had := m[o.k]
 	undo := func() {
@@ -34,13 +35,13 @@ func specApply(m map[int]int, o op) (string, func()) {
 	switch o.kind {
 	case "los":
 		if had {
-			return fmt.Sprintf("val:%d", old), undo
+			return renderID(old), undo
 		}
 		m[o.k] = o.v
-		return fmt.Sprintf("val:%d", o.v), undo
+		return renderID(o.v), undo
 	case "load":
 		if had {
-			return fmt.Sprintf("val:%d", old), undo
+			return renderID(old), undo
 		}
 		return "missing", undo
 	default:
@@ -108,7 +109,9 @@ type verdict struct {
 
 // judge evaluates the five clauses of C18 (and linearizability) on one completed real run.
 // finals are the values a Load of every key returns after all goroutines are done.
-func judge(h []hop, computes map[int]int, finals map[int]string, unfinished []string, earlyWake []string, hung bool) []verdict {
+// nilValued: the keys for which some call of the configuration computes or stores the nil
+// interface itself (only there may a call return nil).
+func judge(h []hop, computes map[int]int, finals map[int]string, nilValued map[int]bool, unfinished []string, earlyWake []string, hung bool) []verdict {
 	var out []verdict
 	if hung {
 		out = append(out, verdict{"C18 run hung (watchdog)", "every step reaches its next yield point"})
@@ -125,7 +128,7 @@ func judge(h []hop, computes map[int]int, finals map[int]string, unfinished []st
 		if x.res == "placeholder" {
 			out = append(out, verdict{"C18 call returned an in-flight placeholder", "a value or missing"})
 		}
-		if x.res == "nil" || x.res == "other" || x.res == "panic" {
+		if (x.res == "nil" && !nilValued[x.o.k]) || x.res == "other" || x.res == "panic" {
 			out = append(out, verdict{"C18 call returned " + x.res, "a value or missing"})
 		}
 		if x.o.kind == "los" && x.via != "direct" {
@@ -153,7 +156,7 @@ func judge(h []hop, computes map[int]int, finals map[int]string, unfinished []st
 			}
 		}
 		if last && len(unfinished) == 0 {
-			if want := fmt.Sprintf("val:%d", s.o.v); finals[s.o.k] != want {
+			if want := renderID(s.o.v); finals[s.o.k] != want {
 				out = append(out, verdict{"C18 store lost", fmt.Sprintf("final value of key %d is %s, got %s", s.o.k, want, finals[s.o.k])})
 			}
 		}
